@@ -3,6 +3,11 @@
 
 mod common;
 mod c01;
+mod c07;
+mod c09;
+mod c10;
+mod c11;
+mod units;
 
 use explorer::{Ctx, ReplayTarget, Tier};
 use std::path::PathBuf;
@@ -10,6 +15,10 @@ use std::path::PathBuf;
 fn dispatch(id: &str, ctx: &mut Ctx) -> bool {
     match id {
         "C01" => c01::run(ctx),
+        "C07" => c07::run(ctx),
+        "C09" => c09::run(ctx),
+        "C10" => c10::run(ctx),
+        "C11" => c11::run(ctx),
         _ => return false,
     }
     true
